@@ -54,6 +54,7 @@ type behaviour struct {
 	Lpc         string   `json:"lpc"`
 	Subs        []int    `json:"subs"`
 	Tries       int      `json:"tries"`
+	End         bool     `json:"end"`  // the behaviour ends in a rest / stuck state of the model (not a prefix)
 	Full        []string `json:"full"` // roles parked at a signal send on a full channel after the last step
 }
 
@@ -462,6 +463,7 @@ func runReplay(b behaviour) caseResult {
 			res.Detail = "subMux could not be read-locked within 5 s after all calls returned"
 		} else if len(subs) > 0 && e.c.State() == opcua.Connected {
 			n0 := atomic.LoadInt64(&e.notifs)
+			l0 := e.ctl.count("pub.send")
 			progressed := false
 			// slack: publish time-out (a stale request may have to expire first) + 8 s
 			pdl := time.Now().Add(requestTimeout + 8*time.Second)
@@ -471,6 +473,13 @@ func runReplay(b behaviour) caseResult {
 				time.Sleep(100 * time.Millisecond)
 				if atomic.LoadInt64(&e.notifs) > n0 {
 					progressed = true
+					break
+				}
+				// the loop makes progress when it keeps sending publish requests (a subscription without
+				// monitored items, or one the server has deleted, only produces keep-alives or time-outs)
+				if e.ctl.count("pub.send") >= l0+3 {
+					progressed = true
+					obs["progress_by"] = "publish requests"
 					break
 				}
 				// nothing can wake a loop that waits in its paused select with empty signal channels
@@ -489,9 +498,10 @@ func runReplay(b behaviour) caseResult {
 				key := "publish-loop-stopped-with-registered-subscription"
 				for _, g := range gs {
 					bs = append(bs, brief(g))
-					if strings.Contains(g, "monitorSubscriptions") && strings.Contains(g, "[select") {
+					gl := strings.Split(g, "\n")
+					if len(gl) > 1 && strings.Contains(gl[0], "[select") && strings.HasPrefix(gl[1], "github.com/gopcua/opcua.(*Client).monitorSubscriptions(") {
 						key = "publish-loop-paused-with-registered-subscription"
-						if drift == "" && !b.LostResume {
+						if drift == "" && !b.LostResume && b.End {
 							// the schedule was driven exactly and the as-is model ends with a running loop
 							key = "publish-loop-not-resumed-where-specification-resumes"
 						}
